@@ -77,9 +77,14 @@ Section Timing.
     rewrite render_tp_line. unfold parse_tp_line.
     destruct (safe_value _ (tp_text_safe time beat p tc)) as [A B].
     rewrite (trim_comment_clean _ B (tidy_last _ A)). unfold tp_text.
-    rewrite !split_on_field by (first [apply f64_no | apply int_no]; try exact Hfmt; reflexivity).
+    rewrite (split_on_field comma (fmt_f64 time)) by (apply (f64_no _ _ _ Hfmt); reflexivity).
+    rewrite (split_on_field comma (fmt_f64 beat)) by (apply (f64_no _ _ _ Hfmt); reflexivity).
+    rewrite (split_on_field comma (fmt_int (pr_sig p))) by (apply (int_no _ _ _ Hfmt); reflexivity).
+    rewrite (split_on_field comma (fmt_int (pr_bank p))) by (apply (int_no _ _ _ Hfmt); reflexivity).
+    rewrite (split_on_field comma (fmt_int (pr_custom p))) by (apply (int_no _ _ _ Hfmt); reflexivity).
+    rewrite (split_on_field comma (fmt_int (pr_vol p))) by (apply (int_no _ _ _ Hfmt); reflexivity).
     rewrite (split_on_field comma (if tc then [49] else [48])) by (destruct tc; reflexivity).
-    rewrite (split_no_comma (fmt_int (pr_flags p))) by (apply int_no; [exact Hfmt|reflexivity]).
+    rewrite (split_no_comma (fmt_int (pr_flags p))) by (apply (int_no _ _ _ Hfmt); reflexivity).
     unfold parse_fields. cbn [next obnd].
     rewrite (pn_f64_fmt _ _ _ Hfmt time H), (f_beat_fmt beat X5). cbn [obnd].
     assert (Hsig : exists n, f_sig (Some (fmt_int (pr_sig p))) = Some n).
@@ -91,10 +96,9 @@ Section Timing.
     unfold f_bank, f_custom, f_vol, f_flags.
     rewrite (pn_i32_fmt _ _ _ Hfmt _ X2), (pn_i32_fmt _ _ _ Hfmt _ X1), (pn_i32_fmt _ _ _ Hfmt _ X0). cbn [obnd].
     rewrite (int_parse _ _ _ Hfmt (pr_flags p)) by (unfold raw_i32_ok in X; lia). cbn [obnd].
-    assert (Htc : f_tc (Some (if tc then [49] else [48])) = tc) by (destruct tc; reflexivity).
-    rewrite Htc.
     assert (Hn : D.is_nan beat = false).
     { unfold in_lim64 in X5. apply andb_prop_l in X5. apply andb_prop_l in X5. apply negb_true_iff in X5. exact X5. }
-    rewrite Hn, andb_false_r. eexists. split; [reflexivity|]. cbn [l_time l_tc l_beat l_custom l_vol]. repeat split; reflexivity.
+    rewrite Hn, andb_false_r. eexists. split; [reflexivity|]. cbn [l_time l_tc l_beat l_custom l_vol].
+    repeat split; try reflexivity. destruct tc; reflexivity.
   Qed.
 End Timing.
